@@ -285,6 +285,52 @@ pub fn search_fields(n: u16, unit: u16) -> (u16, u16, u16) {
     (sr, es, rs)
 }
 
+/// TTC writer with the offset table of each member placed right before the tables that member is
+/// the first to use (`header | OT0 | tables0 | OT1 | tables1 ...`): later members share earlier
+/// tables at lower file offsets than their own directory. Equally valid as the directories-first
+/// layout of `build_ttc`.
+pub fn build_ttc_interleaved(version: u32, pool: &[(u32, Vec<u8>)], members: &[(u32, Vec<usize>)]) -> Vec<u8> {
+    let mut out = W::new();
+    out.u32(tag("ttcf")).u32(version).u32(members.len() as u32);
+    let offs_at = out.len();
+    out.b.resize(offs_at + 4 * members.len(), 0);
+    if version >= 0x0002_0000 {
+        out.u32(0).u32(0).u32(0);
+    }
+    let mut placed: Vec<Option<(u32, u32)>> = vec![None; pool.len()];
+    for (k, (ver, m)) in members.iter().enumerate() {
+        out.pad4();
+        let at = out.len();
+        out.set_u32(offs_at + 4 * k, at as u32);
+        out.b.resize(at + 12 + 16 * m.len(), 0);
+        for &i in m {
+            if placed[i].is_none() {
+                out.pad4();
+                placed[i] = Some((out.len() as u32, pool[i].1.len() as u32));
+                out.bytes(&pool[i].1);
+            }
+        }
+        out.set_u32(at, *ver);
+        out.set_u16(at + 4, m.len() as u16);
+        let (sr, es, rs) = search_fields(m.len() as u16, 16);
+        out.set_u16(at + 6, sr);
+        out.set_u16(at + 8, es);
+        out.set_u16(at + 10, rs);
+        let mut idx: Vec<usize> = m.clone();
+        idx.sort_by_key(|&i| pool[i].0);
+        for (slot, &i) in idx.iter().enumerate() {
+            let o = at + 12 + 16 * slot;
+            let (off, len) = placed[i].unwrap_or((0, 0));
+            out.set_u32(o, pool[i].0);
+            out.set_u32(o + 4, checksum(&pool[i].1));
+            out.set_u32(o + 8, off);
+            out.set_u32(o + 12, len);
+        }
+    }
+    out.pad4();
+    out.b
+}
+
 /// TTC writer: `members` = table index lists into a shared table pool.
 pub fn build_ttc(version: u32, pool: &[(u32, Vec<u8>)], members: &[(u32, Vec<usize>)]) -> Vec<u8> {
     let mut out = W::new();
